@@ -86,7 +86,7 @@ def impl_case(c):
                                for m in mans],
                     'starts': {n: [int(x) for x in sw.getLayout(n).starts] for n in sw._handlers},
                     'shape': {n: [int(x) for x in sw.getLayout(n).shape] for n in sw._handlers},
-                    'bs': int(sw.bufferSize), 'wrank': int(comm.Get_rank())}
+                    'bs': int(sw.bufferSize), 'wrank': int(comm.Get_rank()), 'largest': int(sw._largestLayoutManager)}
             bs = int(sw.bufferSize)
             cur = start
             src = np.full(bs, -7, dtype=dtype)
@@ -281,14 +281,14 @@ def gen(chk):
         for _ in range(reps_walk):
             st = rng.choice(names)
             cases.append(((N, layouts, nprocs, st, make_walk(rng, names, st), rng.choice('fc'), rng.randrange(10 ** 6)), fam))
-    per_grid = 10 if quick else 40
+    per_grid = 10 if quick else 120
     for (n0, n1) in grids(nmax):
         for _ in range(per_grid):
             add(fullsim_case(rng, n0, n1), 'fullsim')
         for k in range(len(UPSTREAM)):
-            for _ in range(3 if quick else 10):
+            for _ in range(3 if quick else 30):
                 add(upstream_case(rng, k, n0, n1), 'upstream%d' % k)
-    nrand = 1500 if quick else 12000
+    nrand = 1500 if quick else 50000
     for _ in range(nrand):
         n0, n1 = rng.choice(grids(nmax))
         if rng.random() < 0.3:
@@ -443,6 +443,28 @@ def run():
             mlines.append('swroute %s ; %s' % (head, bufs))
             mkeys.append((ci, k))
             cur = nxt
+    # the constructor model: topology, largest handler and the topology axes of every handler
+    clines = []
+    for c in cases:
+        N, layouts, nprocs = c[0], c[1], c[2]
+        clines.append('swctor %s | %s' % (' / '.join(' , '.join(' '.join(map(str, l)) for l in h.values()) for h in layouts),
+                                          ' / '.join(' '.join(map(str, [p] if isinstance(p, int) else p)) for p in nprocs)))
+    cres = core.model_parallel(clines)
+    for ci, (c, r, m) in enumerate(zip(cases, impl, cres)):
+        N, layouts, nprocs = c[0], c[1], c[2]
+        info = r[1][0] if r[0] == 'ok' else (r[3] if r[0] == 'fail' and len(r) > 3 else None)
+        if info is not None:
+            chk.cov['certificates_checked'] += 1
+            got = '%d | %s | %s' % (info['largest'], ' '.join(map(str, info['topo'])), ' / '.join(' '.join(map(str, a)) for a in info['axes']))
+            if ' '.join(m.split()) != ' '.join(got.split()):
+                chk.cov['disagreements_checked'] += 1
+                chk.violation('layout.LayoutSwapper.__init__:communicator-choice-differs-from-sw_ctor',
+                              'layouts=%r nprocs=%r: the constructor built largest | topology | axes = %s, the model sw_ctor gives %s'
+                              % (layouts, nprocs, got, m),
+                              {'kind': 'correspondence', 'theorem': 'sw_ctor (SwapperCtor.v) / c03_ctor_axes',
+                               'case': [N, layouts, nprocs, c[3], [], c[5], c[6]]}, no_input=True)
+        elif r[0] == 'ok' or (r[0] == 'rejected' and m != 'none' and r[1].startswith('AssertionError')):
+            pass
     mres = dict(zip(mkeys, core.model_parallel(mlines, timeout=3000)))
     okres = dict(zip([(a, b) for (a, b, _, _, _) in okkeys], core.model_parallel(oklines)))
     okinfo = {(a, b): (x, y, rt) for (a, b, x, y, rt) in okkeys}
@@ -608,8 +630,9 @@ def run():
                            'process counts <= extents; walks of 1-6 transposes, buffer or not, float/complex; non-trivial = different layouts on more '
                            'than one rank; distinct = (shape, grouping, grid, source, dest, buffer, dtype)' % ((3, 3) if chk.tier == 'quick' else (4, 4)),
                       extra={'rejected_by_constructor': rejected, 'coq_eval_cross_checks': len(terms) + len(sample_terms)},
-                      uncovered=['the constructor\'s choice of topology axes is not modelled: the axes are recovered from the implementation\'s '
-                                 'communicators (certificate) and validated by sw_step_wf_b / sw_int_wf_b on every step of every route taken',
+                      uncovered=['the constructor model sw_ctor (choice of topology axes) is tied by the differential only; the steps do not rely on it: the axes '
+                                 'recovered from the implementation\'s communicators are validated by sw_step_wf_b / sw_int_wf_b on every step of every route taken',
+                                 'connectivity of the layout graph / route construction (_makeConnectionMap) is C06\'s subject; routes are certificates here',
                                  'that _compatibleLayout / getAxes imply sw_step_wf_b is checked per route (certificate), not proved',
                                  'frame of a single step (which cells of source/dest/buf are written; padding) is tested, not proved',
                                  'process counts larger than the extent they distribute (empty blocks) are not generated'])
@@ -622,8 +645,17 @@ def replay(path):
     case = (c[0], c[1], c[2], c[3], [tuple(s) for s in c[4]], c[5], c[6])
     r = impl_case(case)
     if r[0] != 'ok':
-        print('run outcome', r)
+        print('run outcome', r[:3])
         return 0 if r[0] == 'rejected' else 1
+    if 'sw_ctor' in str(body['replay'].get('theorem', '')):
+        info = r[1][0]
+        line = 'swctor %s | %s' % (' / '.join(' , '.join(' '.join(map(str, l)) for l in h.values()) for h in case[1]),
+                                   ' / '.join(' '.join(map(str, [p] if isinstance(p, int) else p)) for p in case[2]))
+        m = core.model([line])[0]
+        got = '%d | %s | %s' % (info['largest'], ' '.join(map(str, info['topo'])), ' / '.join(' '.join(map(str, a)) for a in info['axes']))
+        print('constructor: largest | topology | axes =', got, '; model sw_ctor:', m)
+        if ' '.join(m.split()) != ' '.join(got.split()):
+            return 1
     bad = 0
     cur = c[3]
     for k, (nxt, ub, bb) in enumerate(case[4]):
